@@ -95,10 +95,11 @@ type parseCase struct {
 }
 
 type result struct {
-	Checked    int      `json:"checked"`
-	NonTrivial int      `json:"distinct_nontrivial"`
-	Violations []string `json:"violations"`
-	Samples    []string `json:"samples"`
+	DataRefused int      `json:"data_carrying_actions_refused"`
+	Checked     int      `json:"checked"`
+	NonTrivial  int      `json:"distinct_nontrivial"`
+	Violations  []string `json:"violations"`
+	Samples     []string `json:"samples"`
 }
 
 var actionByName = map[string]seccomp.Action{"kill_thread": seccomp.ActionKillThread, "kill_process": seccomp.ActionKillProcess, "trap": seccomp.ActionTrap,
@@ -205,10 +206,30 @@ func parseU64(s string) uint64 {
 	return v
 }
 
+// actionValue: a documented name, or name+N - the named action carrying N in its data bits (an errno to return, a tracer message);
+// such values are valid group actions in memory but have no documented text form
+func actionValue(s string) seccomp.Action {
+	if i := strings.Index(s, "+"); i > 0 {
+		var n uint32
+		fmt.Sscanf(s[i+1:], "%d", &n)
+		return actionByName[s[:i]] | seccomp.Action(n)
+	}
+	return actionByName[s]
+}
+
+func carriesData(cp *concPolicy) bool {
+	for _, g := range cp.Groups {
+		if strings.Contains(g.Action, "+") {
+			return true
+		}
+	}
+	return false
+}
+
 func literal(cp *concPolicy) seccomp.Policy {
 	p := seccomp.Policy{DefaultAction: actionByName[cp.Default]}
 	for _, g := range cp.Groups {
-		sg := seccomp.SyscallGroup{Names: g.Names, Action: actionByName[g.Action]}
+		sg := seccomp.SyscallGroup{Names: g.Names, Action: actionValue(g.Action)}
 		for _, n := range g.NWC {
 			nc := seccomp.NameWithConditions{Name: n.Name}
 			for _, c := range n.Conditions {
@@ -314,9 +335,14 @@ func policies(cps []concPolicy, r *result) {
 		type Config struct {
 			Seccomp seccomp.Policy `yaml:"seccomp" json:"seccomp"`
 		}
+		data := carriesData(cp)
 		check := func(what string, text []byte, terr error) {
 			r.Checked++
 			if terr != nil {
+				if data {
+					r.DataRefused++ // no text form for such a value: refusing to marshal is honest
+					return
+				}
 				bad("policy %d: %s failed: %v", i, what, terr)
 				return
 			}
@@ -331,6 +357,10 @@ func policies(cps []concPolicy, r *result) {
 				got, lerr = loadConfig(text)
 			}()
 			if lerr != nil {
+				if data {
+					r.DataRefused++ // the marshalled text is refused loudly (the tree as it is writes "unknown"): nothing silently different
+					return
+				}
 				bad("policy %d: the %s form does not load through the configuration path: %v\n%s", i, what, lerr, text)
 				return
 			}
@@ -343,8 +373,10 @@ func policies(cps []concPolicy, r *result) {
 				bad("policy %d: the policy read back from the %s form compiles to a different program than the in-memory policy\n%s", i, what, text)
 			}
 		}
-		check("documented YAML", render(cp, i), nil)
-		if emitDir != "" {
+		if !data {
+			check("documented YAML", render(cp, i), nil)
+		}
+		if emitDir != "" && !data {
 			os.WriteFile(fmt.Sprintf("%s/pol_%d.yml", emitDir, i), render(cp, i), 0o644)
 			os.WriteFile(fmt.Sprintf("%s/pol_%d.want", emitDir, i), want, 0o644)
 		}
@@ -352,7 +384,7 @@ func policies(cps []concPolicy, r *result) {
 		check("yaml.Marshal", y, yerr)
 		j, jerr := json.Marshal(Config{literal(cp)})
 		check("json.Marshal", j, jerr)
-		if emitDir != "" && yerr == nil && jerr == nil {
+		if emitDir != "" && yerr == nil && jerr == nil && !data {
 			// the marshalled forms as files, under the names a user would give them
 			os.WriteFile(fmt.Sprintf("%s/pol_%d.m.yaml", emitDir, i), y, 0o644)
 			os.WriteFile(fmt.Sprintf("%s/pol_%d.json", emitDir, i), j, 0o644)
